@@ -33,13 +33,6 @@ import (
 	log "github.com/sirupsen/logrus"
 )
 
-func vfC17B(b bool) string {
-	if b {
-		return "1"
-	}
-	return "0"
-}
-
 type vfC17NullDialer struct{}
 
 func (vfC17NullDialer) Dial(network, address string) (net.Conn, error) {
